@@ -8,7 +8,7 @@ Cell(g) == Method(g[3], g[4], Auth(g[1], g[6]), g[2], g[5], Auth(g[1], g[7]))
 Init == /\ x = 0
         /\ PrintT(<<"TABLE28", [l \in BOOLEAN |-> [r \in IoCap |-> [i \in IoCap |-> IoMethod(l, r, i)]]]>>)
         /\ \A g \in Grid : Cell(g) \in Methods
-Next == x < Cardinality(Grid) /\ x' = x + 1      \* one step per cell, so that the cells are counted as states
+Next == x = 0 /\ x' \in 1..Cardinality(Grid)     \* one state per cell, so that the cells are counted as states
 Spec == Init /\ [][Next]_x
 AllCellsDefined == \A g \in Grid : Cell(g) \in Methods
 =============================================================================
